@@ -12,12 +12,13 @@ static vh_key_t K1, K2, KW, KEC, KED, KRSA;
 static jwk_set_t *kset;
 static const jwk_item_t *I1, *I1A, *I2, *IW, *IECpriv, *IECpub, *IED, *IRSA;
 
-#define NTOK 27
+#define NTOK 31
 static char *TOK[NTOK];
 static const char *TOKNAME[NTOK] = { "NULL", "empty", "no-dots", "one-dot", "header-not-base64", "header-not-json", "unknown-alg", "missing-alg",
 	"non-string-alg", "payload-not-json", "expired", "not-yet-valid", "wrong-iss", "alg-none-unsigned", "wrong-alg-HS384", "bad-signature",
 	"signature-not-base64", "valid-A", "valid-B", "exp-not-integer", "kid-fail(callback error)", "kid-bad(callback picks inadmissible key)",
-	"kid-k2(valid under K2)", "kid-weak(callback picks too-small key)", "huge-valid", "valid-none-token", "wrong-aud" };
+	"kid-k2(valid under K2)", "kid-weak(callback picks too-small key)", "huge-valid", "valid-none-token", "wrong-aud",
+	"payload-json-array", "payload-json-array-signed-valid", "header-json-array", "payload-empty-object-unsigned" };
 
 static char *mk(const vh_key_t *k, int alg, const char *hdr, const char *pl) { return vh_ref_token(k, alg, hdr, pl); }
 
@@ -54,6 +55,10 @@ static void build_pool(void)
 	TOK[24] = mk(&K1, JWT_ALG_HS256, H, big);
 	TOK[25] = mk(NULL, JWT_ALG_NONE, "{\"alg\":\"none\"}", "{\"iss\":\"me\",\"aud\":\"x\",\"exp\":1700009999}");
 	TOK[26] = mk(&K1, JWT_ALG_HS256, H, "{\"iss\":\"me\",\"aud\":\"y\"}");
+	TOK[27] = mk(NULL, JWT_ALG_NONE, "{\"alg\":\"none\"}", "[]");
+	TOK[28] = mk(&K1, JWT_ALG_HS256, H, "[\"iss\",\"me\"]");
+	TOK[29] = mk(&K1, JWT_ALG_HS256, "[\"alg\",\"HS256\"]", "{\"iss\":\"me\"}");
+	TOK[30] = mk(NULL, JWT_ALG_NONE, "{\"alg\":\"none\"}", "{}");
 }
 
 /* checker callback: select key by kid */
@@ -173,9 +178,7 @@ int main(int argc, char **argv)
 	IW = vh_key_load(&KW, 1, NULL, &kset); IECpriv = vh_key_load(&KEC, 1, NULL, &kset); IECpub = vh_key_load(&KEC, 0, NULL, &kset);
 	IED = vh_key_load(&KED, 1, NULL, &kset); IRSA = vh_key_load(&KRSA, 1, NULL, &kset);
 	build_pool();
-	if (a.shard == 0 && a.start == 0) {
-		for (int t = 0; t < NTOK; t++) printf("[\"TOK\",%d,\"%s\"]\n", t, TOKNAME[t]);
-	}
+	for (int t = 0; t < NTOK; t++) printf("[\"TOK\",%d,\"%s\"]\n", t, TOKNAME[t]);
 	if (!strcmp(a.mode, "pairs")) {
 		for (int prov = 0; prov < 2; prov++)
 		for (int cfg = 0; cfg < NCFG; cfg++)
